@@ -92,6 +92,7 @@ type Rec struct {
 	hashes   map[uint64]struct{}
 	start    time.Time
 	maxSamp  int
+	caseNT   int64              // non-trivial cases seen through Case (sampling schedule)
 	required map[string]float64 // class -> minimal fraction of evaluations
 }
 
@@ -145,7 +146,8 @@ func (r *Rec) Case(key any, nontrivial bool, sample any, classes ...string) {
 		r.hashes[hashOf(key)] = struct{}{}
 		if sample != nil && len(r.p.Samples) < r.maxSamp {
 			// spread samples: take the 1st, then every time the count doubles
-			n := r.p.NonTrivial
+			r.caseNT++
+			n := r.caseNT
 			if n&(n-1) == 0 {
 				r.p.Samples = append(r.p.Samples, sample)
 			}
